@@ -14,7 +14,7 @@ func verifHarness_C05(n, mode, entry int) {
 func verifC05(x string, entry int) {
 	nodes, _, err := verifParse(entry, x)
 	clean := err == nil
-	var starts, ends []bool
+	var starts, ends, quoted []bool
 	if clean {
 		toks, ok := verifLexAll(x)
 		if !ok {
@@ -22,12 +22,16 @@ func verifC05(x string, entry int) {
 		}
 		starts = make([]bool, len(x)+2)
 		ends = make([]bool, len(x)+2)
+		quoted = make([]bool, len(x)+2)
 		for _, t := range toks {
 			if t.Kind == token.TokenEOF {
 				continue
 			}
 			starts[t.Pos] = true
 			ends[t.End] = true
+			if len(t.Raw) > 0 && t.Raw[0] == '`' {
+				quoted[t.Pos] = true
+			}
 			// '>>' and '<>' are legitimately split by the parser in type contexts
 			if t.Kind == ">>" || t.Kind == "<>" {
 				starts[t.Pos+1] = true
@@ -39,13 +43,13 @@ func verifC05(x string, entry int) {
 		if verifIsNil(root) {
 			continue
 		}
-		verifC05Node(root, len(x), clean, starts, ends)
+		verifC05Node(root, len(x), clean, starts, ends, quoted)
 	}
 	verifObserveInt("clean", verifBoolInt(clean))
 	verifReach("C05/done")
 }
 
-func verifC05Node(n ast.Node, size int, clean bool, starts, ends []bool) {
+func verifC05Node(n ast.Node, size int, clean bool, starts, ends, quoted []bool) {
 	name := verifTypeName(n)
 	pos, end := int(n.Pos()), int(n.End())
 	// children first: the innermost offending node is the one reported
@@ -54,7 +58,7 @@ func verifC05Node(n ast.Node, size int, clean bool, starts, ends []bool) {
 		if verifIsNil(c.Node) {
 			continue
 		}
-		verifC05Node(c.Node, size, clean, starts, ends)
+		verifC05Node(c.Node, size, clean, starts, ends, quoted)
 		cp, ce := int(c.Node.Pos()), int(c.Node.End())
 		if cp < pos || ce > end {
 			verifFail("C05/child-outside-parent", name+"."+c.Field)
@@ -80,6 +84,9 @@ func verifC05Node(n ast.Node, size int, clean bool, starts, ends []bool) {
 			verifFail("C05/pos-not-at-token-start", name)
 		}
 		if !ends[end] {
+			if quoted[pos] {
+				verifFail("C05/end-not-at-token-end", name+": back-quoted spelling")
+			}
 			verifFail("C05/end-not-at-token-end", name)
 		}
 	} else if pos > end {
